@@ -118,4 +118,11 @@ def main():
 
 
 if __name__ == '__main__':
-    main()
+    try:
+        main()
+    except SystemExit:
+        raise
+    except BaseException:       # a crash of the harness is a fault (exit 3), never a violation
+        import traceback
+        traceback.print_exc()
+        sys.exit(3)
